@@ -84,7 +84,9 @@ def generate(dirname, pts):
 def run(tier):
     rep = Report("C10", tier, "exploration")
     allpts = list(points())
-    configs = [("plain", False, False), ("unimock_test", True, True)] if tier == "quick" else \
+    # the feature-on / non-test configuration is where "gated unless exported" is observable at all with the
+    # feature's implicit default, so the quick tier has it too
+    configs = [("plain", False, False), ("unimock", True, False), ("unimock_test", True, True)] if tier == "quick" else \
         [("plain", False, False), ("test", False, True), ("unimock", True, False), ("unimock_test", True, True)]
     evaluations = 0
     distinct = set()
